@@ -7,7 +7,7 @@ from xml.sax.saxutils import escape, quoteattr
 from lib.c15 import net as N
 from lib.c15.dbc import Lex  # noqa: F401
 
-NET_OPTS = {"multiline": False, "lengths": [1, 2, 4, 8, 8, 8], "attributes": False}
+NET_OPTS = {"lengths": [1, 2, 4, 8, 8, 8], "attributes": False}
 SKIP = ("attrs", "group")
 NS = "http://kayak.2codeornot2code.org/1.0"
 
